@@ -153,9 +153,10 @@ def trees_rule1(depth, t, memo=None):
             for pos in range(len(cts)):
                 if cts[pos] == "O":
                     continue
+                first_free = next(i for i, c in enumerate(cts) if c != "O")
                 for sub in trees_rule1(depth - 1, cts[pos], memo):
-                    if sub in leaves_of(cts[pos]) and pos > 0:
-                        continue   # all-leaf combinations are produced once, at pos 0
+                    if sub in leaves_of(cts[pos]) and pos > first_free:
+                        continue   # all-leaf combinations are produced once, at the first position that takes an arbitrary child
                     others = [leaves_of(c) for i, c in enumerate(cts) if i != pos]
                     for sib in itertools.product(*others):
                         ch = list(sib)
@@ -382,6 +383,12 @@ def prelude(used=None):
     hcls = ("class", "Hk", [("fi", "int"), ("fb", "bool")], ([], [("setfield", V("self"), "fi", lit(2)), ("setfield", V("self"), "fb", ("bool", True))]), [])
     hk = ("assign", "hk", ("new", "Hk", []), None, ())
     def mut(name, rt, target_read, store):
+        # int mutators return the NEW value of the slot, bool mutators the OLD one (so that `slot && mutator` / `slot || mutator` tell a
+        # snapshot of the left operand from a late read of it)
+        if rt == "bool":
+            return ("assign", name, ("fn", [("i", "int")], rt,
+                                     [("print", ("bin", "+", ("str", name + " "), V("i"))), ("assign", "was", target_read, None, ()), store,
+                                      ("return", V("was"))]), None, ())
         return ("assign", name, ("fn", [("i", "int")], rt,
                                  [("print", ("bin", "+", ("str", name + " "), V("i"))), store, ("return", target_read)]), None, ())
     e0, b0 = ("index", V("li"), lit(0)), ("index", V("lb"), lit(0))
